@@ -17,7 +17,11 @@ def gen_scenarios(rnd: random.Random, count, max_items=5):
         w = rnd.choice([0, 1, 2, 3]) if b >= 2 else 0
         n = rnd.randint(0, max_items)
         arr = [{'gap': rnd.choice([0, 0, 1, 2, 3]), 'kind': rnd.choice(['ok', 'ok', 'ok', 'exc', 'pre'])} for _ in range(n)]
-        out.append({'b': b, 'w': w, 'arr': arr, 'nw': rnd.choice([1, 1, 2])})
+        # `bare`: an upstream failure arrives the way it does out of a PROCESS queue - unpickled back into the plain exception
+        # (with its remote traceback attached) - instead of still wrapped; `hook`: the worker has a (strict) preprocess hook
+        # even if it rejects nothing
+        out.append({'b': b, 'w': w, 'arr': arr, 'nw': rnd.choice([1, 1, 2]), 'bare': rnd.random() < 0.5,
+                    'hook': rnd.random() < 0.5})
     return out
 
 
@@ -65,7 +69,9 @@ def _install():
                 from mpservice.multiprocessing.remote_exception import RemoteException
                 if isinstance(y, RemoteException):
                     e = y.exc
-                    detsched.emit('Out', w=_wk(), id=uid, kind=('pre' if getattr(e, 'site', '') == 'pre' else 'exc'))
+                    # `own`: the failure that leaves the worker for request uid is that request's own one
+                    detsched.emit('Out', w=_wk(), id=uid, kind=('pre' if getattr(e, 'site', '') == 'pre' else 'exc'),
+                                  own=bool(isinstance(e, ElemError) and e.i == uid))
                 else:
                     detsched.emit('Res', w=_wk(), id=uid, same=bool(y == uid))
         return oput(self, item, *a, **k)
@@ -129,8 +135,11 @@ def _make_scenario(sc):
             detsched.emit('Call', w=self.worker_index + 1, ids=ids if ok else [-1], t=_ticks(), bare=bare)
             return x
 
-    if has_pre:
+    if has_pre or sc.get('hook'):
         def preprocess(self, x):
+            if not isinstance(x, int):
+                # a strict hook, as user code typically is: it must only ever be given genuine inputs
+                raise TypeError(f'preprocess was given {type(x).__name__}, not an input')
             if kinds.get(x) == 'pre':
                 raise ElemError(x, 'pre')
             return x
@@ -185,6 +194,9 @@ def _make_scenario(sc):
                         raise ElemError(i, 'up')
                     except ElemError as e:
                         x = RemoteException(e)
+                        if sc.get('bare'):
+                            import pickle
+                            x = pickle.loads(pickle.dumps(x))     # what a process queue delivers: the plain exception
                 else:
                     x = i
                 detsched.emit('Arrive', id=i, t=_ticks())
